@@ -110,8 +110,9 @@ def lopt(l):
 
 
 # ---- documented behaviour (Python monitor, written from the help texts) ---------------------------------------------
-def doc_in_group(copies, ngroup, g, f):
-    return any(cf == f and ngroup[cn_] == g and h == "Y" and wt != "N" for (_, cf, cn_, h, wt) in copies)
+def doc_in_group(copies, ngroup, g, f, skip=None):
+    """file f is available (healthy, not released) on a node of group g; for `node clean` the node being cleaned does not count"""
+    return any(cf == f and ngroup[cn_] == g and h == "Y" and wt != "N" and cn_ != skip for (_, cf, cn_, h, wt) in copies)
 
 
 def doc_clean(ix, o, copies, fsize, facq, freg_days, days_as_implemented=False):
@@ -135,7 +136,7 @@ def doc_clean(ix, o, copies, fsize, facq, freg_days, days_as_implemented=False):
                     continue
             elif not (freg_days[f] > o["days"]):  # registered more than COUNT days ago
                 continue
-        if o["targets"] and not all(doc_in_group(copies, ngroup, g, f) for g in o["targets"]):
+        if o["targets"] and not all(doc_in_group(copies, ngroup, g, f, skip=o["node"]) for g in o["targets"]):
             continue
         cands.append((i, f, wt))
     out = {}
